@@ -1134,6 +1134,58 @@ def gen_embed_case(rng):
     return ref, x, y, rec
 
 
+def embed_lazy_symmetric(ctx, rng, case):
+    """x = a.transpose(p) held LAZILY where p exchanges legs with identical spaces: the stored structure of x coincides with that
+    of `a` (and with meta taken from `a`), only the pending permutation differs.  The vector of x w.r.t. meta must be the vector of
+    the materialised x, and un-embedding must give x back (NumPy: dense(a) transposed)."""
+    yastn = Y()
+    from harness import tgen
+    sid = rng.choice(["dense", "Z2", "Z3", "U1", "Z2xU1", "U1xU1"])
+    cplx = rng.random() < 0.3
+    cfg = tgen.make_cfg(sid, dtype="complex128" if cplx else "float64")
+    l0 = tgen.rand_leg(rng, cfg, sid, max_sectors=3, max_dim=3)
+    others = [tgen.rand_leg(rng, cfg, sid, max_sectors=3, max_dim=2) for _ in range(rng.randint(0, 2))]
+    legs = [l0] * rng.randint(2, 3) + others
+    rng.shuffle(legs)
+    a = tgen.rand_tensor(rng, cfg, sid, legs, cplx=cplx, drop=0.0, allow_empty=False)
+    if a.size == 0:
+        return
+    same = [k for k, l in enumerate(legs) if l == l0]
+    q = list(same); 
+    for _ in range(5):
+        rng.shuffle(q)
+        if q != same:
+            break
+    else:
+        return
+    p = list(range(len(legs)))
+    for k, k2 in zip(same, q):
+        p[k] = k2
+    p = tuple(p)
+    try:
+        _, meta = yastn.split_data_and_meta(a.to_dict(level=0), squeeze=True)
+        b = a.transpose(axes=p)
+        if b.get_legs() != a.get_legs() or tuple(b.n) != tuple(a.n):
+            return
+        rec = {"sym": sid, "legs": len(legs), "perm": list(p), "complex": cplx}
+        ctx.case({"stream": "embed-lazy-symmetric", "recipe": rec}, nontrivial=len(a.struct.t) >= 2)
+        ctx.count("embed-lazy-symmetric:stored-structure-equal:" + str(b.struct == a.struct))
+        case = dict(case, recipe=rec, tensor=tgen.to_model(a))
+        vb, _ = yastn.split_data_and_meta(b.to_dict(level=0, meta=meta), squeeze=True)
+        vc, _ = yastn.split_data_and_meta(b.consume_transpose().to_dict(level=0, meta=meta), squeeze=True)
+        back = yastn.Tensor.from_dict(yastn.combine_data_and_meta(vb, meta))
+        bad = []
+        if not np.array_equal(np.asarray(vb), np.asarray(vc)):
+            bad.append("vector of the lazily transposed tensor != vector of the same tensor after consume_transpose()")
+        if not np.array_equal(back.to_numpy(), a.to_numpy().transpose(p)):
+            bad.append("un-embedded tensor != NumPy transpose of the dense array")
+        if bad:
+            ctx.fail("oracle", "c17:meta-embed:lazy-symmetric", f"to_dict(meta=...) of a tensor with a pending transposition {p} exchanging identical legs: {bad}",
+                     case=case, concrete=True)
+    except Exception as e:  # noqa: BLE001
+        ctx.fail("oracle", "c17:meta-embed:lazy-symmetric", f"to_dict(meta=...) of a lazily transposed tensor compatible with meta raised {_exc(e)}", case=case, concrete=True)
+
+
 def embed_checks(ctx, ref, x, y, case):
     yastn = Y()
     key = "c17:meta-embed"
@@ -1762,6 +1814,12 @@ def _run(ctx, tmp):
             d = env.to_dict(level=2)
             dicts_for_model.append(d)
             split_order_oracle(ctx, d, rng, case)
+
+    # ---- to_dict(meta=...) of a tensor held with a pending transposition that maps the stored structure onto itself ----------
+    for i in range(60 if quick else 600):
+        if B.over(0.9):
+            break
+        embed_lazy_symmetric(ctx, rng, dict(base, stream="embed-lazy-symmetric", i=i))
 
     # ---- to_dict(meta=...) ----------------------------------------------------------------------------
     emb_cases = []
